@@ -58,6 +58,10 @@ def configs(tier):
         for thr in (None, 0, 1):
             out.append({'kind': 'dense', 'nc': nc, 'geom': 'zigzag', 'wmi': 'I', 'ncl': nc, 'thr': thr,
                         'unwhiten': True, 'nsw': 2, 'model_thr': 0.5})
+    for nc in (3,):
+        for unw in (True, False):
+            out.append({'kind': 'dense', 'nc': nc, 'geom': 'zigzag', 'wmi': 'dense', 'ncl': nc, 'thr': 0.5,
+                        'unwhiten': unw, 'nsw': 2, 'first_call': True})
     for nc in (3, 4):
         out.append({'kind': 'dense_explicit', 'nc': nc, 'geom': 'zigzag', 'wmi': 'dense', 'ncl': 2, 'thr': None,
                     'unwhiten': True, 'nsw': 2})
@@ -130,6 +134,10 @@ def run_config(cfg, e):
                                  for j, c in enumerate(ch) for t in range(nsw)])
                     e.witness()
                     return
+                if cfg.get('first_call'):
+                    # an earlier request on the same model with the other whitening flag and another threshold
+                    m.get_template(0, amplitude_threshold=cfg['thr'], unwhiten=not cfg['unwhiten'])
+                    m.get_template(0, unwhiten=cfg['unwhiten'])
                 b = m.get_template(0, amplitude_threshold=cfg['thr'], unwhiten=cfg['unwhiten'])
                 ch = [int(v) for v in snp.asarray(b.channel_ids).a.tolist()]
                 tpl = snp.asarray(b.template)
@@ -299,6 +307,9 @@ def replay(case):
                 if not np.allclose(m.get_template_waveforms(0), U[:, ch], atol=1e-5):
                     return 'get_template_waveforms columns'
                 return None
+            if case.get('first_call'):
+                m.get_template(0, amplitude_threshold=case['thr'], unwhiten=not case['unwhiten'])
+                m.get_template(0, unwhiten=case['unwhiten'])
             b = m.get_template(0, amplitude_threshold=case['thr'], unwhiten=case['unwhiten'])
         except Exception as ex:
             return 'get_template raised %r' % (ex,)
